@@ -226,6 +226,11 @@ int _GD_Include(DIRFILE *D, struct parser_state *p, const char *ename,
     pop_ns = 1;
     p->ns = NULL; /* Don't free: we'll need it back when we pop */
     p->nsl = 0;
+  } else if (p->ns == NULL) {
+    /* The effects of a /NAMESPACE directive never propagate upwards: whatever
+     * the included fragment makes of the current namespace is dropped when it
+     * returns */
+    pop_ns = 1;
   }
 
   /* isolate filename */
